@@ -138,6 +138,10 @@ def run(ctx):
             spec = {"name": "synth", "seed": int(rng.integers(1, 10 ** 6)), "N": int(rng.integers(2, 7)), "n": int(rng.integers(1, 4))}
         else:
             spec = c05.random_spec(rng, name)
+        if name not in ("shin-metiu", "blocks", "synth") and (i // len(names)) % 2 == 1 and i % 2 == 0:
+            # the diabatic representation: the Hamiltonian handed out IS the model's V(x) (no copy through eigh)
+            spec["representation"] = "diabatic"
+            ctx.count("scripts_in_the_diabatic_representation")
         model = c05.make_model(spec)
         ops = gen_script(rng, model, name, ctx.thorough())
         if name == "shin-metiu":
